@@ -7,6 +7,7 @@ CONSTANTS
   ArmAt = "write"
   Upfront = FALSE
   SplitStart = FALSE
+  Cap <- CapAll
 SPECIFICATION Spec
 INVARIANTS TypeOK NoInflightBroadcast OnlyCommitted
 PROPERTIES PSafety Delivered Converged
